@@ -29,6 +29,7 @@ class Harness:
         self.timeout = int(kv["timeout"]) if "timeout" in kv else None
         self.mem = int(kv.get("mem", DEFAULT_MEM_GB))
         self.flags = kv.get("flags", "")
+        self.dead = int(kv.get("dead", 0))   # covers that are dead code BY CONSTRUCTION in this instantiation
         self.bound = bound
         self.funcs = funcs
         self.line = line
@@ -106,7 +107,7 @@ def parse_log(text):
     return r
 
 
-def classify(rc, text, parsed):
+def classify(rc, text, parsed, dead=0):
     """-> (status, detail).  status in PASS FAIL UNWIND VACUOUS TIMEOUT OOM COMPILE ERROR"""
     if rc == 124 or rc == 137 and "Killed" not in text and parsed["verdict"] is None and "timeout" in text.lower():
         return "TIMEOUT", "time limit reached"
@@ -123,9 +124,12 @@ def classify(rc, text, parsed):
         tail = text[-600:].replace("\n", " | ")
         return "ERROR", "no verdict (rc=%s): %s" % (rc, tail)
     if parsed["verdict"] == "SUCCESSFUL":
-        bad = [c for c in parsed["covers"] if c["status"] != "SATISFIED"]
-        if bad:
-            return "VACUOUS", "cover witness not satisfied: " + "; ".join(c["desc"] for c in bad)
+        unsat = [c for c in parsed["covers"] if c["status"] not in ("SATISFIED", "UNREACHABLE")]
+        unreach = [c for c in parsed["covers"] if c["status"] == "UNREACHABLE"]
+        sat = [c for c in parsed["covers"] if c["status"] == "SATISFIED"]
+        if unsat or len(unreach) != dead or not sat:
+            return "VACUOUS", "cover witnesses: %d satisfied, %d unreachable (declared dead=%d), not satisfiable: %s" % (
+                len(sat), len(unreach), dead, "; ".join(c["desc"] for c in unsat + (unreach if len(unreach) != dead else [])))
         return "PASS", ""
     # FAILED
     real = [f for f in parsed["failed"] if "unwinding assertion" not in f["desc"]]
@@ -202,7 +206,7 @@ def run_pool(jobs, crate, dep_target, rundir, nworkers, on_done):
             dt = time.time() - t0
             text = open(log, errors="replace").read()
             parsed = parse_log(text)
-            status, detail = classify(rc, text, parsed)
+            status, detail = classify(rc, text, parsed, h.dead)
             with lock:
                 results[h.name] = {"status": status, "detail": detail, "wall_s": round(dt, 1), "parsed": parsed,
                                    "log": log, "slot_target": tdir}
